@@ -531,8 +531,8 @@ theorem command_line_generic (cfg : Cfg) (hfix : cfg.fx.append = true) (s0 : S) 
     (hi : s0.inp = l ++ 13 :: 10 :: rest) (hl : noEol l) (tag name : Bytes) (s2 : S)
     (hh : cmdHeader s0.reset = (some (tag, name), s2)) (hno : handlerOf cfg name ≠ .opaque)
     (bu : Bool) (e : Option Err) (s3 : S) (hr : runHandler name (handlerOf cfg name) s2 = (bu, e, s3))
-    (hshape : ∀ t', s2.inp = t' ++ 13 :: 10 :: rest → noEol t' → s2.lit = none → s2.crlf = false →
-      Shape rest t' s2 s3) :
+    (hshape : ∀ t', (∃ c, l = c ++ t') → s2.inp = t' ++ 13 :: 10 :: rest → noEol t' → s2.lit = none →
+      s2.crlf = false → Shape rest t' s2 s3) :
     ∃ s1, readCommand cfg s0 = (true, s1) ∧ s1.inp = rest ∧ s1.pos = s0.pos + l.length + 2 ∧
       s1.roles = List.replicate (l.length + 2) Role.text ++ s0.roles ∧
       tag = l.takeWhile isAtomChar ∧ tag ≠ [] ∧
@@ -548,7 +548,7 @@ theorem command_line_generic (cfg : Cfg) (hfix : cfg.fx.append = true) (s0 : S) 
     exact (List.append_cancel_left this).symm
   have ht' : noEol t' := (noEol_append (hct ▸ hl)).2
   obtain ⟨c2, t'', ended, new, htc, hend, i3, p3, r3, l3, c3, e3, hnn, hnt, hnc, hno'⟩ :=
-    hshape t' hi2 ht' (by rw [adv.lit]; rfl) hcr
+    hshape t' ⟨c, hct⟩ hi2 ht' (by rw [adv.lit]; rfl) hcr
   have ht'' : noEol t'' := (noEol_append (htc ▸ ht')).2
   -- DiscardLine
   have hd : (s3.discardLine cfg.fx).inp = rest ∧
@@ -692,6 +692,85 @@ theorem noArgs_shape (name : Bytes) (body : S → Option Err × S) (hb : BodyPur
       · intro p hp; simp at hp
       · intro e he; simp at he; rw [he]; simp
 
+/-- handlers of the form ExpectCRLF; then something that neither reads nor answers -/
+def NoArgHandler (h : Handler) : Prop :=
+  ∃ body, BodyPure body ∧ h = .run (fun s => noArgs s body)
+
+theorem pure_of_events (body : S → Option Err × S)
+    (h : ∀ s, ∃ (e : Option Err) (new : List Event) (st : St), body s = (e, { s with evs := new ++ s.evs, st := st }) ∧
+      new.filter isTagged = [] ∧ (∀ p, Event.cont p ∉ new) ∧ (∀ x ∈ new, x ≠ Event.opaque)) : BodyPure body := by
+  intro s
+  obtain ⟨e, new, st, hb, h1, h2, h3⟩ := h s
+  rw [hb]
+  exact ⟨rfl, rfl, rfl, rfl, rfl, new, rfl, h1, h2, h3⟩
+
+theorem noArg_noop : NoArgHandler (.run hNoop) :=
+  ⟨fun s => (none, s), pure_of_events _ (fun s => ⟨none, [], s.st, rfl, rfl, by simp, by simp⟩), rfl⟩
+
+theorem noArg_logout : NoArgHandler (.run hLogout) :=
+  ⟨fun s => (none, { (s.emit .bye) with st := .logout }),
+   pure_of_events _ (fun s => ⟨none, [.bye], .logout, rfl, rfl, by simp, by simp⟩), rfl⟩
+
+theorem noArg_starttls : NoArgHandler (.run hStartTLS) :=
+  ⟨fun s => (some .no, s), pure_of_events _ (fun s => ⟨some .no, [], s.st, rfl, rfl, by simp, by simp⟩), rfl⟩
+
+theorem noArg_unauthenticate : NoArgHandler (.run hUnauthenticate) := by
+  refine ⟨fun s => needAuth s fun s => (none, { (s.emit (call .unauthenticate)) with st := .notAuth }), ?_, rfl⟩
+  apply pure_of_events
+  intro s
+  unfold needAuth
+  split
+  · exact ⟨none, [call .unauthenticate], .notAuth, rfl, rfl, by simp [call], by simp [call]⟩
+  · exact ⟨some .bad, [], s.st, rfl, rfl, by simp, by simp⟩
+
+theorem noArg_namespace : NoArgHandler (.run hNamespace) := by
+  refine ⟨fun s => needAuth s fun s => (none, s.emit (call .namespace)), ?_, rfl⟩
+  apply pure_of_events
+  intro s
+  unfold needAuth
+  split
+  · exact ⟨none, [call .namespace], s.st, rfl, rfl, by simp [call], by simp [call]⟩
+  · exact ⟨some .bad, [], s.st, rfl, rfl, by simp, by simp⟩
+
+theorem noArg_unselect (b : Bool) : NoArgHandler (.run (hUnselect b)) := by
+  refine ⟨fun s => if s.st != .selected then (some .bad, s)
+    else
+      let s := if b then s.emit (call .expunge) else s
+      (none, { (s.emit (call .unselect)) with st := .auth }), ?_, rfl⟩
+  apply pure_of_events
+  intro s
+  dsimp only
+  split
+  · exact ⟨some .bad, [], s.st, rfl, rfl, by simp, by simp⟩
+  · cases b
+    · exact ⟨none, [call .unselect], .auth, rfl, rfl, by simp [call], by simp [call]⟩
+    · exact ⟨none, [call .unselect, call .expunge], .auth, rfl, rfl, by simp [call], by simp [call]⟩
+
+theorem noArg_expunge : NoArgHandler (.run hExpunge) := by
+  refine ⟨fun s => if s.st != .selected then (some .bad, s) else (none, s.emit (call .expunge)), ?_, rfl⟩
+  apply pure_of_events
+  intro s
+  split
+  · exact ⟨some .bad, [], s.st, rfl, rfl, by simp, by simp⟩
+  · exact ⟨none, [call .expunge], s.st, rfl, rfl, by simp [call], by simp [call]⟩
+
+/-- the argument-less commands of the server's table -/
+theorem noArg_names (cfg : Cfg) (name : Bytes)
+    (h : name ∈ [k_NOOP, k_CHECK, k_CAPABILITY, k_LOGOUT, k_STARTTLS, k_UNAUTHENTICATE, k_NAMESPACE, k_CLOSE,
+      k_UNSELECT, k_EXPUNGE]) : NoArgHandler (handlerOf cfg name) := by
+  simp only [List.mem_cons, List.mem_nil_iff, or_false] at h
+  rcases h with rfl | rfl | rfl | rfl | rfl | rfl | rfl | rfl | rfl | rfl
+  · exact noArg_noop
+  · exact noArg_noop
+  · exact noArg_noop
+  · exact noArg_logout
+  · exact noArg_starttls
+  · exact noArg_unauthenticate
+  · exact noArg_namespace
+  · exact noArg_unselect true
+  · exact noArg_unselect false
+  · exact noArg_expunge
+
 /-! ### against the RFC-side framing -/
 
 theorem atomChar_agree : ∀ c, c < 127 → 32 ≤ c → isAtomChar c = FramingSpec.isAtomChar c := by decide
@@ -745,5 +824,78 @@ theorem unknown_command_frame (cfg : Cfg) (hfix : cfg.fx.append = true) (s0 : S)
   refine ⟨s1, new, hrc, hnew, hfilt, hnc, by rw [ht rfl, htagspec], hroles, hpre, fun hc => ?_⟩
   obtain ⟨h1, h2, _⟩ := hex hc
   exact ⟨by rw [hinp, h1], h2, by rw [hpos]; omega⟩
+
+/-- The server and the RFC framing on a command whose handler stays on the line: same tag, the
+    octets the server consumed as command text are command text for `frameLines` too, and unless the
+    line ends in a non-synchronising literal header both end the command at the same octet. -/
+theorem line_command_frame (cfg : Cfg) (hfix : cfg.fx.append = true) (s0 : S) (l rest : Bytes)
+    (hi : s0.inp = l ++ 13 :: 10 :: rest) (hp : ∀ b ∈ l, 32 ≤ b ∧ b ≤ 126)
+    (tag name : Bytes) (s2 : S) (hh : cmdHeader s0.reset = (some (tag, name), s2))
+    (hno : handlerOf cfg name ≠ .opaque)
+    (bu : Bool) (e : Option Err) (s3 : S) (hr : runHandler name (handlerOf cfg name) s2 = (bu, e, s3))
+    (hshape : ∀ t', (∃ c, l = c ++ t') → s2.inp = t' ++ 13 :: 10 :: rest → noEol t' → s2.lit = none →
+      s2.crlf = false → Shape rest t' s2 s3)
+    (go : Nat → Bool) (hgo : go (s0.pos + l.length + 2) = false) (fuel : Nat) (f0 : FramingSpec.Frame) :
+    let R := FramingSpec.frameLines go (fuel + 1) true s0.pos s0.inp f0
+    ∃ s1 new cls, readCommand cfg s0 = (true, s1) ∧
+      s1.evs = new ++ s0.evs ∧ new.filter isTagged = [Event.tagged tag cls] ∧ (∀ p, Event.cont p ∉ new) ∧
+      R.1.tag = some tag ∧
+      s1.roles = List.replicate (l.length + 2) Role.text ++ s0.roles ∧
+      (f0.roles ++ List.replicate (l.length + 2) FramingSpec.Role.text <+: R.1.roles) ∧
+      ((FramingSpec.litHeader l = none ∨ ∃ n, FramingSpec.litHeader l = some (n, false)) →
+        s1.inp = R.2 ∧ R.1.roles = f0.roles ++ List.replicate (l.length + 2) FramingSpec.Role.text ∧
+          s1.pos = s0.pos + (l.length + 2)) := by
+  intro R
+  have hl : noEol l := fun b hb => by have := hp b hb; constructor <;> omega
+  obtain ⟨s1, hrc, hinp, hpos, hroles, htag, htne, new, cls, hnew, hfilt, hnc⟩ :=
+    command_line_generic cfg hfix s0 l rest hi hl tag name s2 hh hno bu e s3 hr hshape
+  have hspec := FramingSpec.frameLines_line go fuel true s0.pos l rest f0 hl hgo
+  rw [← hi] at hspec
+  obtain ⟨ht, hpre, hex⟩ := hspec
+  have htagspec : FramingSpec.tagOf l = some tag := by
+    unfold FramingSpec.tagOf
+    have : List.takeWhile FramingSpec.isAtomChar l = tag := by
+      rw [htag]
+      exact (takeWhile_congr isAtomChar FramingSpec.isAtomChar l
+        (fun b hb => atomChar_agree b (by have := hp b hb; omega) (hp b hb).1)).symm
+    rw [this]
+    cases tag with
+    | nil => exact absurd rfl htne
+    | cons a t => rfl
+  refine ⟨s1, new, cls, hrc, hnew, hfilt, hnc, by rw [ht rfl, htagspec], hroles, hpre, fun hc => ?_⟩
+  obtain ⟨h1, h2, _⟩ := hex hc
+  exact ⟨by rw [hinp, h1], h2, by rw [hpos]; omega⟩
+
+theorem getLast_suffix (c t' : Bytes) (hne : t' ≠ []) : (c ++ t').getLast? = t'.getLast? := by
+  rw [List.getLast?_append]
+  cases h : t'.getLast? with
+  | none => simp [List.getLast?_eq_none_iff] at h; exact absurd h hne
+  | some x => simp
+
+/-- class (i): the argument-less commands of the server's table, on a strict line -/
+theorem noarg_command_frame (cfg : Cfg) (hfix : cfg.fx.append = true) (s0 : S) (l rest : Bytes)
+    (hi : s0.inp = l ++ 13 :: 10 :: rest) (hp : ∀ b ∈ l, 32 ≤ b ∧ b ≤ 126) (hsp : l.getLast? ≠ some 32)
+    (tag name : Bytes) (s2 : S) (hh : cmdHeader s0.reset = (some (tag, name), s2))
+    (hna : NoArgHandler (handlerOf cfg name))
+    (go : Nat → Bool) (hgo : go (s0.pos + l.length + 2) = false) (fuel : Nat) (f0 : FramingSpec.Frame) :
+    let R := FramingSpec.frameLines go (fuel + 1) true s0.pos s0.inp f0
+    ∃ s1 new cls, readCommand cfg s0 = (true, s1) ∧
+      s1.evs = new ++ s0.evs ∧ new.filter isTagged = [Event.tagged tag cls] ∧ (∀ p, Event.cont p ∉ new) ∧
+      R.1.tag = some tag ∧
+      s1.roles = List.replicate (l.length + 2) Role.text ++ s0.roles ∧
+      (f0.roles ++ List.replicate (l.length + 2) FramingSpec.Role.text <+: R.1.roles) ∧
+      ((FramingSpec.litHeader l = none ∨ ∃ n, FramingSpec.litHeader l = some (n, false)) →
+        s1.inp = R.2 ∧ R.1.roles = f0.roles ++ List.replicate (l.length + 2) FramingSpec.Role.text ∧
+          s1.pos = s0.pos + (l.length + 2)) := by
+  obtain ⟨body, hb, hrun⟩ := hna
+  refine line_command_frame cfg hfix s0 l rest hi hp tag name s2 hh (by rw [hrun]; intro h; cases h)
+    (runHandler name (handlerOf cfg name) s2).1 (runHandler name (handlerOf cfg name) s2).2.1
+    (runHandler name (handlerOf cfg name) s2).2.2 rfl ?_ go hgo fuel f0
+  intro t' hc hi2 ht' hl2 _
+  obtain ⟨c, hct⟩ := hc
+  obtain ⟨e, s3, hr, hs⟩ := noArgs_shape name body hb rest t' s2 hi2 ht' hl2
+    (fun hne => by rw [← getLast_suffix c t' hne, ← hct]; exact hsp)
+  rw [hrun, hr]
+  exact hs
 
 end GoImap.Framing
